@@ -283,6 +283,7 @@ class Verdicts:
         self.new = {}
         self.inconclusive = []
         self.count_violating_cases = 0
+        self.keep_old = False
 
     def violation(self, sig, case, detail):
         """sig: narrow textual signature of the departure; detail: dict (expected/observed)"""
@@ -304,9 +305,11 @@ class Verdicts:
     def finish(self, max_print=25):
         for kid, (k, n, sig) in sorted(self.known_hits.items()):
             print(f"KNOWN-FINDING: property={self.prop} {k['what']} [{kid}; {n} observation(s)]")
+        d = os.path.join(REPLAYS, self.prop)
+        if not self.keep_old:
+            shutil.rmtree(d, ignore_errors=True)
         if not self.new:
             return 0
-        d = os.path.join(REPLAYS, self.prop)
         os.makedirs(d, exist_ok=True)
         for i, (sig, (case, detail, n)) in enumerate(sorted(self.new.items(), key=lambda kv: -kv[1][2])):
             h = hashlib.sha256(sig.encode()).hexdigest()[:12]
